@@ -261,8 +261,51 @@ var cachePrimed = scenario{"same-header-altered-last-commit", func(s *netsim.Scr
 	return true
 }}
 
+// a block that was validated (and prevoted) at the previous height but lost there is proposed again one height later
+var staleBlock = scenario{"block-of-the-previous-height-proposed-again", func(s *netsim.Script, h uint64) bool {
+	s.ToHarnessProposerRound()
+	b1 := s.Block(1)
+	if b1 == nil || !s.Propose(b1, 0, true) {
+		return false
+	}
+	r := s.RS().Round
+	// the victim validated and prevoted b1; the round ends without decision, another block is committed at this height
+	s.Votes(kproto.PrevoteType, r, nilID, s.Others)
+	if s.RS().Step == cstypes.RoundStepPrevoteWait {
+		s.Fire()
+	}
+	s.Votes(kproto.PrecommitType, r, nilID, s.Others)
+	if s.RS().Round == r {
+		s.Fire()
+	}
+	for i := 0; i < 4 && s.RS().Height == h; i++ {
+		s.ToHarnessProposerRound()
+		b0 := s.Block(0)
+		if b0 == nil {
+			return false
+		}
+		s.Propose(b0, 0, true)
+		rr := s.RS().Round
+		s.Votes(kproto.PrevoteType, rr, netsim.BlockIDOf(b0), s.Others)
+		s.Votes(kproto.PrecommitType, rr, netsim.BlockIDOf(b0), s.Others)
+	}
+	if s.RS().Height != h+1 {
+		return false
+	}
+	// next height: the old block again (wrong height, wrong parent)
+	s.ToHarnessProposerRound()
+	if !s.Propose(b1, 0, true) {
+		return false
+	}
+	if s.RS().Step <= cstypes.RoundStepPropose {
+		s.Fire()
+	}
+	return true
+}}
+
 func allScenarios() []scenario {
 	out := append([]scenario{}, scenarios...)
+	out = append(out, staleBlock)
 	for v := 2; v <= 10; v++ {
 		out = append(out, invalidBlockScenario(v, false), invalidBlockScenario(v, true))
 	}
